@@ -1,5 +1,6 @@
 import ScVerif.Base.Line
 import ScVerif.C18.Time
+import ScVerif.C18.Mode
 /-! Driver handler for C18: parses one request line, runs the model, prints the canonical answer. -/
 namespace ScVerif.C18
 open ScVerif.Line
@@ -42,9 +43,130 @@ def handleTime (toks : List String) : Option String :=
     pure (showBool (periodsConnected x y))
   | _ => none
 
+/-! ### Segments and modes
+
+Encoding (no spaces): a segment is `mag/len` with `len = i` for an absent length; a list is `e`
+(empty) or segments joined by `,`; several lists are joined by `;`; a mode is `start@list` with
+`start = -` for an absent start time; an absent (`nil`) segment or mode is `nil`. -/
+
+def parseSeg? (s : String) : Option Seg :=
+  match s.splitOn "/" with
+  | [m, l] => do
+    let mag ← parseInt? m
+    if l = "i" then pure ⟨mag, none⟩
+    else do
+      let len ← parseInt? l
+      pure ⟨mag, some len⟩
+  | _ => none
+
+def parseSegs? (s : String) : Option (List Seg) :=
+  if s = "e" then some [] else (s.splitOn ",").mapM parseSeg?
+
+def parseSegLists? (s : String) : Option (List (List Seg)) :=
+  if s = "none" then some [] else (s.splitOn ";").mapM parseSegs?
+
+def parseMode? (s : String) : Option Mode :=
+  match s.splitOn "@" with
+  | [st, l] => do
+    let segs ← parseSegs? l
+    if st = "-" then pure ⟨none, segs⟩
+    else do
+      let x ← parseInt? st
+      pure ⟨some x, segs⟩
+  | _ => none
+
+def parseModes? (s : String) : Option (List Mode) :=
+  if s = "none" then some [] else (s.splitOn ";").mapM parseMode?
+
+def showSeg (s : Seg) : String :=
+  toString s.mag ++ "/" ++ (match s.len with | none => "i" | some l => toString l)
+
+def showSegs (l : List Seg) : String :=
+  if l.isEmpty then "e" else ",".intercalate (l.map showSeg)
+
+def showOptSeg : Option Seg → String
+  | none => "nil"
+  | some s => showSeg s
+
+def showMode (m : Mode) : String :=
+  (match m.start with | none => "-" | some s => toString s) ++ "@" ++ showSegs m.segs
+
+def showOptMode : Option Mode → String
+  | none => "nil"
+  | some m => showMode m
+
+def handleSeg (toks : List String) : Option String :=
+  match toks with
+  | ["active", d, l] => do
+    let d ← parseInt? d
+    let l ← parseSegs? l
+    let r := activeAt d l
+    pure (toString r.1 ++ "|" ++ toString r.2)
+  | ["magat", d, l] => do
+    let d ← parseInt? d
+    let l ← parseSegs? l
+    let r := magnitudeAt d l
+    pure (toString r.1 ++ "|" ++ showBool r.2)
+  | ["dur", l] => do
+    let l ← parseSegs? l
+    let r := duration l
+    pure (toString r.1 ++ "|" ++ showBool r.2)
+  | ["max", l] => do
+    let l ← parseSegs? l
+    pure (toString (maxIdx l) ++ "|" ++ toString (maxMagnitude l))
+  | ["maxafter", d, l] => do
+    let d ← parseInt? d
+    let l ← parseSegs? l
+    pure (toString (maxAfter d l))
+  | ["summag", l] => do
+    let l ← parseSegs? l
+    pure (toString (sumMagnitude l))
+  | ["cut", d, s] => do
+    let d ← parseInt? d
+    let s ← parseSeg? s
+    let r := cutSeg d s
+    pure (showOptSeg r.before ++ "|" ++ showOptSeg r.after ++ "|" ++ showBool r.outside)
+  | ["shift", d, l] => do
+    let d ← parseInt? d
+    let l ← parseSegs? l
+    pure (showSegs (shift d l))
+  | ["sum", ls] => do
+    let ls ← parseSegLists? ls
+    pure (showSegs (sum ls))
+  | ["mactive", t, m] => do
+    let t ← parseInt? t
+    let m ← parseMode? m
+    let r := modeActiveAt t m
+    pure (toString r.1 ++ "|" ++ toString r.2)
+  | ["mmagat", t, m] => do
+    let t ← parseInt? t
+    let m ← parseMode? m
+    let r := modeMagnitudeAt t m
+    pure (toString r.1 ++ "|" ++ showBool r.2)
+  | ["mmaxafter", t, m] => do
+    let t ← parseInt? t
+    let m ← parseMode? m
+    pure (toString (modeMaxSegmentAfter t m))
+  | ["mcut", t, m] => do
+    let t ← parseInt? t
+    let m ← parseMode? m
+    let r := modeCut t m
+    pure (showOptMode r.before ++ "|" ++ showOptMode r.after ++ "|" ++ showBool r.outside)
+  | ["mshift", d, m] => do
+    let d ← parseInt? d
+    let m ← parseMode? m
+    pure (showMode (modeShift d m))
+  | ["msum", ms] => do
+    let ms ← parseModes? ms
+    pure (showOptMode (modeSum ms))
+  | _ => none
+
 def handle (toks : List String) : String :=
   match handleTime toks with
   | some r => r
-  | none => "!bad-op"
+  | none =>
+    match handleSeg toks with
+    | some r => r
+    | none => "!bad-op"
 
 end ScVerif.C18
